@@ -1,4 +1,7 @@
 #include <fault/util.hpp>
+#ifdef YACLIB_VERIF
+#  include <yaclib/fault/verif.hpp>
+#endif
 
 namespace yaclib::detail {
 
@@ -22,6 +25,13 @@ std::uint32_t GetSeed() {
 std::uint64_t GetRandNumber(std::uint64_t max) {
 #if YACLIB_FAULT == 2
   sRandCount++;
+#endif
+#ifdef YACLIB_VERIF
+  if (verif::gHooks.rand != nullptr) {
+    if (long long r = verif::gHooks.rand(verif::gHooks.ctx, max); r >= 0) {
+      return static_cast<std::uint64_t>(r);
+    }
+  }
 #endif
   return eng() % max;
 }
